@@ -403,12 +403,15 @@ func (g *gen) step(prop string) []CStep {
 		if g.cfg.RuleOps && r.Chance(0.08) {
 			return []CStep{CStep{Op: "ruleop", A: r.Intn(4), N: r.Intn(2), Act: []string{"update", "update", "update", "register", "logout"}[r.Intn(5)], V: []string{"approve", "approve", "reject"}[r.Intn(3)]}}
 		}
+		if prop == "C16" && r.Chance(0.03) {
+			return []CStep{CStep{Op: "svccycle", A: r.Intn(3), B: r.Intn(3), N: r.Intn(1 << 20)}}
+		}
 		if g.cfg.AuditOps && r.Chance(0.04) {
 			return []CStep{CStep{Op: "auditcycle", A: r.Intn(27), B: r.Intn(6), N: r.Intn(8)}}
 		}
 		if g.cfg.AuditOps && r.Chance(0.25) {
 			return []CStep{CStep{Op: "audop", A: r.Intn(6), B: r.Intn(6), N: r.Intn(4), V: []string{"approve", "approve", "reject"}[r.Intn(3)],
-				Act: []string{"regnode", "logoutnode", "logoutnode", "updatenode", "regadmin", "bind", "bind", "logoutrole", "logoutrole", "decide", "decide", "decide", "withdraw"}[r.Intn(13)]}}
+				Act: []string{"regnode", "logoutnode", "logoutnode", "updatenode", "regadmin", "bind", "bind", "logoutrole", "logoutrole", "decide", "decide", "decide", "withdraw", "selfupdate"}[r.Intn(14)]}}
 		}
 		if prop == "C15" && r.Chance(0.02) {
 			return []CStep{CStep{Op: "rolecycle", A: r.Intn(4), B: r.Intn(4), N: r.Intn(3)}}
@@ -450,6 +453,9 @@ func (g *gen) step(prop string) []CStep {
 			return []CStep{g.transfer()}
 		}
 	case "C08":
+		if r.Chance(0.02) {
+			return []CStep{CStep{Op: "ghostburst", Pair: r.Intn(16), A: r.Intn(3), N: r.Intn(6), T: int64(r.Range(1, 4))}}
+		}
 		if r.Chance(0.15) {
 			// one-to-many groups: well-formed multi-step traffic that reaches the notification paths
 			switch r.Intn(4) {
@@ -585,6 +591,9 @@ func (g *gen) step(prop string) []CStep {
 					return []CStep{CStep{Op: "grecv", Group: r.Intn(3), N: r.Intn(4), Kind: []string{"ok", "ok", "fail", "rollback"}[r.Intn(4)]}}
 				}
 			}
+		}
+		if (prop == "C04" || prop == "C06" || prop == "C01" || prop == "C02") && r.Chance(0.015) {
+			return []CStep{CStep{Op: "ghostburst", Pair: r.Intn(16), A: r.Intn(3), N: r.Intn(6), T: int64(r.Range(1, 4))}}
 		}
 		if prop == "C06" && r.Chance(0.2) {
 			// "the same holds for a one-to-many group as a whole"
